@@ -285,6 +285,8 @@ def gen(rnd, *, core=False, res_choices=(60, 60, 30, 15), subslot=True, alap=Non
                 s = base + timedelta(days=rnd.randrange(0, max(2, min(14, span_days))))
                 m.setdefault("shift_leaves", {})[sid] = [(s, None) if rnd.random() < 0.5 else (s, s + timedelta(days=rnd.randint(1, 3)))]
         for g in m["groups"]:
+            if shifts and rnd.random() < 0.25:
+                g["shift"] = rnd.choice(sorted(shifts))      # members without hours of their own work this shift
             if rnd.random() < 0.3:
                 s = base + timedelta(days=rnd.randrange(0, max(2, min(14, span_days))))
                 g["leaves" if rnd.random() < 0.5 else "vacs"] = [(s, None) if rnd.random() < 0.5 else (s, s + timedelta(days=rnd.randint(1, 2)))]
@@ -606,6 +608,8 @@ def render(m, refrnd=None, precrnd=None, extra_header=None, scenarios=None, trai
 
     def emit_group(g, ind):
         L.append('%sresource %s "%s" {' % (ind, g["id"], g["id"]))
+        if g.get("shift"):
+            L.append("%s  workinghours %s" % (ind, g["shift"]))
         if g.get("limits"):
             L.append("%s  %s" % (ind, limits_text(g["limits"])))
         for s, e in g.get("leaves", []):
